@@ -1,12 +1,12 @@
 package props
 
 import (
-	"runtime"
 	"crypto/sha1"
 	"encoding/json"
 	"fmt"
 	"os"
 	"path/filepath"
+	"runtime"
 	"sort"
 	"strconv"
 	"strings"
